@@ -12,8 +12,15 @@ LEVEL = "model_checking"
 def lottery(ctx):
     from cascade.shm import algorithms
 
-    consts = {"MaxN": "3", "MaxStamp": "2" if ctx.quick else "3", "MaxSize": "2"}
+    consts = {"MaxN": "3", "MaxStamp": "2", "MaxSize": "2"}
     cases_file, cases = p3.generate(ctx, "Lottery", consts, env={"PASS": "generate"})
+    if not ctx.quick:
+        # thorough: in addition three distinct stamps (sizes 1), judged under the larger constants (a superset domain)
+        wide = {"MaxN": "3", "MaxStamp": "3", "MaxSize": "2"}
+        _, more = p3.generate(ctx, "Lottery", {"MaxN": "3", "MaxStamp": "3", "MaxSize": "1"}, env={"PASS": "generate"}, tag="gen3")
+        cases = cases + more
+        cases_file.write_text(json.dumps(cases))
+        consts = wide
 
     def one(c):
         ents = [algorithms.Entity(e["key"], e["created"], e["first"], e["last"], e["size"]) for e in c["ents"]]
